@@ -47,6 +47,7 @@ def floatOps : FloatOps Float where
   msToS n := natF n / 1000.0
   sToMs v := toU64 (fmax (v * 1000.0) 0.0).round
   gt a b := a > b
+  feq a b := a == b
   ewma r s := (1.0 - 0.1) * r + 0.1 * s
   rto rtt rate := fmax (4.0 * rtt) (natF (2 * MSS) / natF rate)
   tcpRate rtt p :=
